@@ -1382,6 +1382,16 @@ func (a *Agent) addRelayCandidates(ctx context.Context, ep relayEndpoint) {
 
 	addresses, ok := a.resolveRelayAddresses(ep)
 	if !ok {
+		// No candidate will own the allocation: release it, the TURN client and the local socket.
+		if ep.closeConn != nil {
+			ep.closeConn()
+		}
+		if ep.onClose != nil {
+			if err := ep.onClose(); err != nil {
+				a.log.Warnf("Failed to release relay endpoint %s: %v", ep.relAddr, err)
+			}
+		}
+
 		return
 	}
 
